@@ -214,6 +214,23 @@ impl ProcessState {
         Lock::new(self.lock_manager.clone(), fid)
     }
 
+    /// Reports whether the target with the given id is being dealt with right
+    /// now: another process holds its lock, or this process has a lock object
+    /// for it (a job of ours is running, or we are waiting for it).  The rows
+    /// of such a target and of its dependencies are being rewritten.
+    pub(crate) fn is_locked_now(&self, fid: i64) -> Result<bool, RedoError> {
+        if self.lock_manager.locks.borrow().contains(&fid) {
+            return Ok(true);
+        }
+        let mut probe = fid_flock(libc::F_WRLCK as c_short, fid).map_err(RedoError::opaque_error)?;
+        fcntl::fcntl(
+            self.lock_manager.file.as_raw_fd(),
+            FcntlArg::F_GETLK(&mut probe),
+        )
+        .map_err(RedoError::opaque_error)?;
+        Ok(probe.l_type != libc::F_UNLCK as c_short)
+    }
+
     #[inline]
     pub fn is_toplevel(&self) -> bool {
         self.env.is_toplevel()
